@@ -1,8 +1,12 @@
 #!/bin/bash
 # usage: try_seeded.sh <seeded-id> <PROP> [worktree]
 # 1. (if a worktree is given) confirm the demonstration: FAIL with the change, PASS without; copy to /verif/seeded/<id>/
-# 2. apply the patch to /repo, run the property's quick check (outputs redirected to a temp dir), undo the patch.
+# 2. apply the patch to a scratch copy of /repo/src (so that concurrently running checks of the real
+#    tree are not disturbed; equivalent to `git -C /repo apply` + check + `git -C /repo checkout -- .`,
+#    which is what `try_seeded.sh --in-repo` does), run the property's quick check with outputs
+#    redirected to a temp dir, remove the copy.
 set -u
+INREPO=0; if [ "$1" = "--in-repo" ]; then INREPO=1; shift; fi
 ID=$1; PROP=$2; WT=${3:-}
 DEST=/verif/seeded/$ID
 if [ -n "$WT" ]; then
@@ -13,11 +17,17 @@ if [ -n "$WT" ]; then
   echo "demo: changed rc=$(cat /tmp/demo_changed.rc) ($(tail -1 /tmp/demo_changed.txt)) original rc=$(cat /tmp/demo_orig.rc) ($(tail -1 /tmp/demo_orig.txt))"
   cp $WT/seeded/patch.diff $WT/seeded/demo.py $WT/seeded/meta.json $DEST/ 2>/dev/null
 fi
-cd /repo && git diff --quiet -- src || { echo "/repo has local changes, refusing"; exit 2; }
-git -C /repo apply $DEST/patch.diff || { echo "patch does not apply to /repo"; exit 2; }
 OUT=$(mktemp -d /tmp/verif-seeded-XXXX)
-cd /verif && VERIF_OUT=$OUT VERIF_NO_DET=1 timeout 900 bin/check $PROP --tier quick 2>&1 | grep -v "Duplicated\|Warn\|cfb" | tail -6 | tee $OUT/result.txt
-git -C /repo checkout -- . 
+if [ $INREPO = 1 ]; then
+  cd /repo && git diff --quiet -- src || { echo "/repo has local changes, refusing"; exit 2; }
+  git -C /repo apply $DEST/patch.diff || { echo "patch does not apply to /repo"; exit 2; }
+  SRCENV=""
+else
+  mkdir -p $OUT/tree && cp -r /repo/src $OUT/tree/src && ( cd $OUT/tree && patch -s -p1 < $DEST/patch.diff ) || { echo "patch does not apply to the scratch copy"; rm -rf $OUT; exit 2; }
+  SRCENV="VERIF_REPO_SRC=$OUT/tree/src"
+fi
+cd /verif && env $SRCENV VERIF_OUT=$OUT VERIF_NO_DET=1 timeout 900 bin/check $PROP --tier quick 2>&1 | grep -v "Duplicated\|Warn\|cfb" | tail -6 | tee $OUT/result.txt
+if [ $INREPO = 1 ]; then git -C /repo checkout -- . ; fi
 cp $OUT/result.txt $DEST/check_result_$PROP.txt 2>/dev/null
 rm -rf $OUT
 git -C /repo status --short | grep -v '^??' | head -3
